@@ -106,3 +106,6 @@ func VerifXMPPTransportSetConn(t *XMPPTransport, conn net.Conn) {
 // VerifStreamManagerResume runs the reconnection loop of a StreamManager (StreamManager.resume) in the calling
 // goroutine.
 func VerifStreamManagerResume(sm *StreamManager) error { return sm.resume() }
+
+// VerifXMPPTransportConn returns the connection an XMPPTransport currently uses (fault injection on the socket).
+func VerifXMPPTransportConn(t *XMPPTransport) net.Conn { return t.conn }
